@@ -162,7 +162,8 @@ def fam_rec(tier, rng):
 
 def fam_fix(tier, rng):
     out = []
-    texts = ["", "a", "abc", "abcd", "abcdefg"]
+    # (characters above 127 count as one character each, like any other)
+    texts = ["", "a", "abc", "abcd", "abcdefg", "\u00c8", "ab\u00c8d", "\u00c8\u00c9\u00ca\u00cb"]
     for n in (1, 3, 5):
         for s in texts:
             for route in ("direct", "field", "element", "byref", "byref-element", "concat"):
